@@ -890,28 +890,17 @@ compareNodeSets(
     }
     else if(theRHSType == XObject::eTypeResultTreeFrag)
     {
-        // hmmm... 
-        const double    theRHSNumber = theRHS.num(executionContext);
-
-        if(DoubleSupport::isNaN(theRHSNumber) == false)
-        {
-            // Compare as number...
-            theResult = doCompareNumber(
-                    theLHS.nodeset(),
-                    getNumberFromNodeFunction(executionContext),
-                    theRHS.num(executionContext),
-                    theNumberCompareFunction);
-        }
-        else
-        {
-            // Compare as string...
-            theResult = doCompareString(
-                    theLHS.nodeset(),
-                    getStringFromNodeFunction(executionContext),
-                    theRHS,
-                    theStringCompareFunction,
-                    executionContext);
-        }
+        // XSLT 1.0, section 11.1: a result tree fragment is treated as
+        // equivalent to a node-set containing just a single root node,
+        // so the comparison is made on its string-value, like the
+        // comparison of two node-sets.  (The string comparison functions
+        // of the relational operators convert the strings to numbers.)
+        theResult = doCompareString(
+                theLHS.nodeset(),
+                getStringFromNodeFunction(executionContext),
+                theRHS,
+                theStringCompareFunction,
+                executionContext);
     }
     else if(theRHSType == XObject::eTypeString)
     {
